@@ -42,3 +42,16 @@ Fixpoint run_tcalls (N : Num) (s : state (T N)) (ncx : ncxt) (i : Z) (cs : list 
       let r := run_call N s ncx y (b, o, e) in
       if (r =? -1)%Z then run_tcalls N s ncx (i + 1)%Z cs' else (10000 * i + 10 + r)%Z
   end.
+
+(* the declared numbers of the session (parts of complex inputs included) must have the shape
+   Kernel.elementary gives them (Budget.decl_ok) before any report is compared:
+   90000000 + index of the first declared number that has not *)
+Fixpoint decls_bad (N : Num) (s : state (T N)) (i : Z) (os : list (ureal (T N))) : Z :=
+  match os with
+  | [] => (-1)%Z
+  | o :: os' => if decl_ok N s o then decls_bad N s (i + 1)%Z os' else i
+  end.
+
+Definition run_case17 (N : Num) (s : state (T N)) (ncx : ncxt) (decls : list (ureal (T N))) (cs : list (tcall N)) : Z :=
+  let d := decls_bad N s 0%Z decls in
+  if (d =? -1)%Z then run_tcalls N s ncx 0%Z cs else (90000000 + d)%Z.
